@@ -192,6 +192,59 @@ func init() {
 	})
 }
 
+func apiRedirects() map[string]string {
+	r := repoMod + "/internal/api"
+	m := map[string]string{
+		"(*" + r + ".HTTP).handlePostMessage":   "verifStub_postMessage",
+		"(*" + r + ".HTTP).handleDeleteSession": "verifStub_deleteSession",
+		"(*" + r + ".HTTP).handleCreateSession": "verifStub_createSession",
+		"(*" + r + ".HTTP).partitioned":         "verifStub_partitioned",
+		"(*" + r + ".HTTP).maybeProxyToLeader":  "verifStub_proxy",
+		"(*github.com/hashicorp/raft.Raft).State": "verifStub_raftState",
+		"time.Sleep": "verifStub_sleep",
+	}
+	for _, h := range []string{"handleStatus", "handleStatusGetMessage", "handleStatusSessions", "handleStatusIrclog", "handleStatusState", "handleIrclog", "handleSnapshot", "handleLeader", "handleGetConfig", "handleJoin", "handlePart", "handleQuit", "handlePostConfig", "handleKill"} {
+		m["(*"+r+".HTTP)."+h] = "verifStub_private"
+	}
+	return m
+}
+
+func init() {
+	registerCheck(&CheckDef{
+		ID: "C11",
+		Runs: func(tier string) []HarnessRun {
+			p := map[string]int{"rest": 13, "authlen": 3}
+			if tier == "thorough" {
+				p = map[string]int{"rest": 16, "authlen": 5}
+			}
+			mk := func(name, entry string) HarnessRun {
+				return HarnessRun{Name: name, Pkg: "internal/api", PkgName: "api", Files: []string{"apipkg/common.go", "apipkg/c11.go"}, APIs: []string{"http"},
+					Entry: entry, Params: p, Unwind: 10, Redirect: apiRedirects(), NoReplay: true}
+			}
+			return []HarnessRun{mk("public", "verifHarness_C11_public"), mk("private", "verifHarness_C11_private")}
+		},
+		Assumptions: []string{
+			"net/http modelled: headers are maps with canonical keys, the response writer is a recording fake, BasicAuth returns the triple the harness attached to the request",
+			"DispatchPublic is only mounted under /robustirc/v1/ (the path prefix is a precondition)",
+			"handlers behind the authentication layer are recording stubs; the session check inside handleGetMessages is observed through a stub of partitioned()",
+			"strconv.ParseUint is an uninterpreted function of the path segment",
+		},
+		Bounds: func(tier string) map[string]interface{} {
+			return map[string]interface{}{"sessions": 2, "path_rest_bytes": p4(tier, 13, 16), "secret_bytes": p4(tier, 3, 5), "requests": 1}
+		},
+		Outside:   []string{"wiring in main() (http.HandleFunc)", "TLS", "rafthttp transport", "timing side channels of the comparison", "native replay (library method fakes cannot be injected natively): counterexamples are solver models"},
+		Functions: []string{"api.(*HTTP).session", "sessionOrProxy", "DispatchPublic", "DispatchPrivate", "DispatchPrivateWithoutAuth", "handleGetMessages (prefix up to the session check)", "ircserver.(*IRCServer).GetAuth"},
+		Rule:      "one case per method (and private path); non-trivial when the dispatcher returns and the oracle is evaluated",
+	})
+}
+
+func p4(tier string, q, t int) int {
+	if tier == "thorough" {
+		return t
+	}
+	return q
+}
+
 var (
 	ircFiles = []string{"ircserver/tpl.go", "ircserver/step.go", "ircserver/oracles.go"}
 	ircSym   = []string{"ircserver/api_sym.go"}
